@@ -122,3 +122,27 @@ fn c15_real_fnv_separator_sensitivity() {
     }
     core::mem::forget((d1, d2, d3, d4));
 }
+
+//@ id: c15_empty_const_value_is_framed
+//@ prop: C15
+//@ tier: quick
+//@ strength: bounded(enumerated: one concrete descriptor whose single const label has the EMPTY value), real FNV-1a
+//@ fn: desc::Desc::new
+//@ obligation: an empty const-label value still contributes its separator to the identity stream (id = FNV-1a(fq_name FF FF)), so the position of an empty value is not lost and `{a: ""}` differs from 'no const labels'
+#[kani::proof]
+#[kani::unwind(8)]
+#[kani::stub(alloc::fmt::format, stub_format)]
+#[kani::stub(<[LabelPair]>::sort, stub_sort)]
+fn c15_empty_const_value_is_framed() {
+    let mut consts: HashMap<String, String> = HashMap::new();
+    consts.insert("a".to_owned(), String::new());
+    let r = Desc::new("m".to_owned(), "h".to_owned(), Vec::new(), consts);
+    match &r {
+        Ok(d) => {
+            assert!(d.id == fnv1a(&[b'm', 0xFF, 0xFF]), "C15: an empty const-label value is not framed (its separator is missing from the identity stream)");
+            assert!(d.id != fnv1a(&[b'm', 0xFF]), "C15: descriptor with an empty const value has the identity of one without const labels");
+        }
+        Err(_) => assert!(false, "C15: well-formed descriptor refused"),
+    }
+    core::mem::forget(r);
+}
